@@ -22,7 +22,7 @@ def main():
         cls = reg.by_name(cname)
         for mode in (modes or cls.modes):
             c = cls(src)
-            res, info = run_contract(c, src, mode)
+            res, info = run_contract(c, src, mode, keep_models=True)
             bad = collections.Counter(r['name'] for r in res if r['status'] not in ('discharged', 'cover-ok'))
             print(mode, info['status'], info.get('reason', ''), 'obligations', len(res), 'FAILED:' if bad else 'all ok', dict(bad))
     finally:
